@@ -26,7 +26,7 @@ VARIABLES pcT,         \* thread -> index of the next instruction
           flags        \* set of condition flags that have been set
 
 lvars == <<pcT, holder, flags>>
-Locks == {"runProc", "doneProc", "states", "logs", "procConf", "pMutex", "stateMtx", "logBuf"}
+Locks == {"runProc", "doneProc", "states", "logs", "procConf", "update", "wg", "pMutex", "stateMtx", "logBuf"}
 
 Instr(t) == Threads[t][pcT[t]]
 Finished(t) == pcT[t] > Len(Threads[t])
@@ -56,12 +56,14 @@ C20_Design_LockOwner == \A l \in Locks : holder[l] = "none" \/ holder[l] \in DOM
 \* ---- programs (the order of lock acquisitions and waits in project_runner.go / process.go)
 A(l) == <<"acq", l>>
 R(l) == <<"rel", l>>
-\* a process goroutine from launch to its epilogue: state changes and log writes while running, onProcessEnd sets done
-\* under pMutex, then addDoneProcess, (exit_on_* would call ShutDownProject here), WaitGroup.Done, removeRunningProcess
+AR(l) == << A(l), R(l) >>
+\* a process goroutine from launch to its epilogue: state changes and log writes while running; onProcessEnd claims the
+\* end under stateMtx, sets done under pMutex; then addDoneProcess, (exit_on_* would call ShutDownProject here),
+\* the wait group, removeRunningProcess
 ProcGoroutine(p) ==
-  << A("stateMtx"), R("stateMtx"), A("logBuf"), R("logBuf"), <<"await", "exited_" \o p>>,
-     A("pMutex"), R("pMutex"), A("stateMtx"), R("stateMtx"), A("pMutex"), <<"set", "done_" \o p>>, R("pMutex"),
-     A("doneProc"), R("doneProc"), A("runProc"), R("runProc") >>
+  AR("stateMtx") \o AR("logBuf") \o << <<"await", "exited_" \o p>> >>
+  \o AR("pMutex") \o AR("stateMtx") \o AR("stateMtx") \o << A("pMutex"), <<"set", "done_" \o p>>, R("pMutex") >>
+  \o AR("doneProc") \o AR("wg") \o AR("runProc")
 \* the command dies some time after it was signalled
 Command(p) == << <<"await", "signalled_" \o p>>, <<"set", "exited_" \o p>> >>
 \* ShutDownProject: holds runProcMutex for the whole shutdown; stop each process, then wait for their completion
@@ -72,16 +74,32 @@ Shutdown(ps) ==
   \o [k \in 1..Len(ps) |-> <<"await", "done_" \o ps[k]>>]
   \o << R("runProc") >>
 \* StopProcess: lookup under runProcMutex, then stop (state mutex, signal)
-StopOp(p) == << A("runProc"), R("runProc"), A("stateMtx"), R("stateMtx"), <<"set", "signalled_" \o p>> >>
-\* RestartProcess: lookup, stop, wait for completion, register the new instance
-RestartOp(p) == StopOp(p) \o << <<"await", "done_" \o p>>, A("runProc"), R("runProc") >>
-\* GetProcessState of a running process: lookup, then the state mutex; GetProcessesState does it for every process
-GetStateOp == << A("runProc"), R("runProc"), A("stateMtx"), R("stateMtx"), A("states"), R("states") >>
-\* a log subscription: the log buffer's mutex (observer callbacks run under it)
-LogSubOp == << A("logs"), R("logs"), A("logBuf"), R("logBuf") >>
-\* ScaleProcess down: configuration mutex, then removeProcess (logs, conf, lookup, stop, wait)
-ScaleDownOp(p) == << A("procConf"), R("procConf"), A("logs"), R("logs"), A("procConf"), R("procConf") >> \o StopOp(p)
-                  \o << <<"await", "done_" \o p>>, A("states"), R("states") >>
+StopOp(p) == AR("runProc") \o AR("stateMtx") \o << <<"set", "signalled_" \o p>> >>
+\* runProcess: log buffer lookup, state lookup (running registry, state map), then the atomic check-and-register:
+\* runProcMutex with the predecessor's pMutex (isDone) nested in it, then the wait group
+RunProcess == AR("logs") \o AR("runProc") \o AR("states") \o << A("runProc"), A("pMutex"), R("pMutex"), R("runProc") >> \o AR("wg")
+\* runProcessByName (start / restart): updateMutex around the configuration lookup and runProcess
+RunByName == << A("update") >> \o AR("procConf") \o RunProcess \o << R("update") >>
+StartOp == AR("runProc") \o RunByName
+\* RestartProcess: lookup, stop, wait for completion, then runProcessByName
+RestartOp(p) == StopOp(p) \o << <<"await", "done_" \o p>> >> \o RunByName
+\* GetProcessState of a running process: lookup, then the state mutex; GetProcessesState snapshots the configuration first
+GetStateOp == AR("procConf") \o AR("runProc") \o AR("stateMtx") \o AR("states")
+\* a log subscription: the log map, then the log buffer's mutex (observer callbacks run under it)
+LogSubOp == AR("logs") \o AR("logBuf")
+\* removeProcess: logs, configuration, lookup, stop, wait, state entry
+RemoveProcess(p) == AR("logs") \o AR("procConf") \o StopOp(p) \o << <<"await", "done_" \o p>> >> \o AR("states")
+\* renameProcess (scale): registry remove / add, logs, state (statesMutex is held to the end of the function), configuration
+Rename == AR("runProc") \o << A("runProc"), A("pMutex"), R("pMutex"), R("runProc") >> \o AR("logs") \o AR("logs")
+          \o AR("runProc") \o AR("stateMtx") \o << A("states"), A("procConf"), R("procConf"), R("states") >>
+\* ScaleProcess down under updateMutex: configuration reads, removeProcess of the surplus replica, replica counts, rename
+ScaleDownOp(p) == << A("update") >> \o AR("procConf") \o AR("procConf") \o AR("procConf") \o RemoveProcess(p)
+                  \o AR("procConf") \o AR("procConf") \o Rename \o << R("update") >>
+\* UpdateProject replacing one process under updateMutex: compare, removeProcess, addProcessAndRun
+UpdateOp(p) == << A("update") >> \o AR("procConf") \o AR("procConf") \o RemoveProcess(p)
+               \o AR("states") \o AR("procConf") \o AR("logs") \o RunProcess \o << R("update") >>
+\* Run() returning: waits for the process goroutines
+RunWait(ps) == [k \in 1..Len(ps) |-> <<"await", "done_" \o ps[k]>>] \o AR("wg")
 
 MCThreads1 ==
   [ proc_a |-> ProcGoroutine("a"), cmd_a |-> Command("a"), shutdown |-> Shutdown(<<"a">>),
@@ -91,16 +109,12 @@ MCThreads2 ==
     shutdown |-> Shutdown(<<"a", "b">>), logsub |-> LogSubOp ]
 MCThreads3 ==
   [ proc_b |-> ProcGoroutine("b"), cmd_b |-> Command("b"), scale_b |-> ScaleDownOp("b"),
-    state |-> GetStateOp, logsub |-> LogSubOp, stop_b |-> StopOp("b") ]
+    state |-> GetStateOp, stop_b |-> StopOp("b") ]
+MCThreads4 ==
+  [ proc_a |-> ProcGoroutine("a"), cmd_a |-> Command("a"), update_a |-> UpdateOp("a"),
+    restart_a |-> RestartOp("a"), run |-> RunWait(<<"a">>) ]
+MCThreads5 ==
+  [ proc_a |-> ProcGoroutine("a"), cmd_a |-> Command("a"), scale_a |-> ScaleDownOp("a"),
+    start |-> StartOp, shutdown |-> Shutdown(<<"a">>) ]
 
-(***************************************************************************)
-(* record predicates                                                       *)
-(***************************************************************************)
-C20_NoCrash(e) == e.panics = <<>> /\ e.fatal = ""
-C20_EveryCallReturns(e) == e.blocked = <<>> /\ ~e.runBlocked
-ConcViolated(e) ==
-  { n \in {"C20_NoCrash", "C20_EveryCallReturns"} :
-      ~(CASE n = "C20_NoCrash" -> C20_NoCrash(e) [] n = "C20_EveryCallReturns" -> C20_EveryCallReturns(e)) }
-ConcDetail(e) == [ops |-> e.ops, fatal |-> e.fatal, fatalSite |-> e.fatalSite,
-                  panicSites |-> { e.panics[k].site : k \in DOMAIN e.panics }, blocked |-> e.blocked, runBlocked |-> e.runBlocked]
 =============================================================================
